@@ -21,6 +21,7 @@ class EngineC14(HistEngine):
         w_fresh = ch.choice([0, 2, 4], "w_fresh")
         w_new = ch.choice([0, 1, 2], "w_new")
         self._theme = ch.choice(self.theme_keys, "theme") if self.theme_keys and ch.chance(2, 3, "theme?") else None
+        self._focus = ch.choice(self.shape_keys, "focus") if ch.chance(1, 4, "focus?") else None
         insts = [fmt0]
         subs: list[str] = []
         ops = []
